@@ -171,8 +171,8 @@ theorem parseCore_dir (q : List Name) (b : Bytes) (hq : ValidDir q) :
 
 /-! ## `register` is `parseMember` followed by `applyReg` -/
 
-theorem register_eq (m : Member) (i : Idx) :
-    register registerSkel m i = match parseMember m with
+theorem register_eq (m : Member) (i : AIdx) :
+    register registerSkel registerDirSkel m i = match parseMember m with
       | none => i
       | some r => applyReg r i := by
   unfold register registerSkel parseMember parseCore
@@ -191,13 +191,12 @@ theorem register_eq (m : Member) (i : Idx) :
           | none => simp [hw, hl, hp]
           | some ibuf =>
             cases hf : m.isFile
-            · by_cases hd : (i.dirs ibuf).isSome <;>
-                simp [hw, hl, hp, hf, hd, applyReg, Reg.entry, runToks, tokStep]
-            · simp [hw, hl, hp, hf, applyReg, Reg.entry, runToks, tokStep, lastName]
+            · simp [hw, hl, hp, hf, applyReg, runToks, tokStep, regDir]
+            · simp [hw, hl, hp, hf, applyReg, runToks, tokStep, lastName, regDir]
   · by_cases hemp : (normComps m.comps).isEmpty <;> simp [hemp, actOn]
 
-theorem foldl_register (ms : List Member) (i : Idx) :
-    ms.foldl (fun i m => register registerSkel m i) i =
+theorem foldl_register (ms : List Member) (i : AIdx) :
+    ms.foldl (fun i m => register registerSkel registerDirSkel m i) i =
       (ms.filterMap parseMember).foldl (fun i r => applyReg r i) i := by
   induction ms generalizing i with
   | nil => rfl
@@ -207,16 +206,17 @@ theorem foldl_register (ms : List Member) (i : Idx) :
     | none => exact ih _
     | some r => simpa using ih _
 
-theorem indexR_eq_foldr (rs : List Reg) : indexR rs = rs.foldr applyReg Idx.empty := by
+theorem indexR_eq_foldr (rs : List Reg) : indexR rs = rs.foldr applyReg idx0 := by
   induction rs with
   | nil => rfl
   | cons r rs ih => simp [indexR, ih]
 
-theorem index_eq (ms : List Member) : index ms = indexR (ms.filterMap parseMember).reverse := by
+theorem index_eq (ms : List Member) : index ms = (indexR (ms.filterMap parseMember).reverse).toIdx := by
   unfold index indexWith
   rw [foldl_register, List.foldl_eq_foldr_reverse, indexR_eq_foldr]
+  rfl
 
-/-! ## the index in closed form -/
+/-! ## the index in closed form: files -/
 
 /-- (key, content) of a file registration. -/
 def Reg.kv (r : Reg) : Option ((Id × Name) × Bytes) := r.file.map fun eb => ((r.id, eb.1), eb.2)
@@ -239,73 +239,6 @@ theorem indexR_files (rs : List Reg) (k : Id × Name) :
         simp only [indexR, applyReg, hf, fileKVs, Reg.kv, List.filterMap_cons, upd, hk', if_false,
           Option.map_some, List.find?_cons, hk, decide_false] at ih ⊢
         exact ih
-
-def mentioned (rs : List Reg) (p : Id) : Bool :=
-  rs.any fun r => decide (r.parent = p) || (r.file.isNone && decide (r.id = p))
-
-theorem filterMap_childEntry_of_not_mentioned (rs : List Reg) (p : Id) (h : mentioned rs p = false) :
-    rs.filterMap (childEntry p) = [] := by
-  induction rs with
-  | nil => rfl
-  | cons r rs ih =>
-    simp only [mentioned, List.any_cons, Bool.or_eq_false_iff, decide_eq_false_iff_not] at h
-    have : childEntry p r = none := by simp [childEntry, h.1.1]
-    simp [List.filterMap_cons, this, ih (by simpa [mentioned] using h.2)]
-
-/-- A directory is known iff some member names it as its parent or is its own member; its listing
-is the entries registered under it, in archive order. -/
-theorem indexR_dirs (rs : List Reg) (p : Id) :
-    (indexR rs).dirs p = if mentioned rs p then some (rs.filterMap (childEntry p)).reverse else none := by
-  induction rs generalizing p with
-  | nil => rfl
-  | cons r rs ih =>
-    have ihp := ih p
-    have ihid := ih r.id
-    by_cases hpar : r.parent = p
-    · -- the new entry is appended to p's listing
-      have hm : mentioned (r :: rs) p = true := by simp [mentioned, hpar]
-      have hce : childEntry p r = some r.entry := by simp [childEntry, hpar]
-      simp only [hm, if_true, List.filterMap_cons, hce, List.reverse_cons]
-      cases hf : r.file with
-      | some eb =>
-        simp only [indexR, applyReg, hf, upd, hpar, if_true]
-        by_cases hmp : mentioned rs p = true
-        · simp [ihp, hmp]
-        · have hmp' : mentioned rs p = false := by simpa using hmp
-          simp [ihp, hmp', filterMap_childEntry_of_not_mentioned rs p hmp']
-      | none =>
-        by_cases hmp : mentioned rs p = true
-        · by_cases hid : r.id = p
-          · simp [indexR, applyReg, hf, upd, hpar, ihp, hmp, hid]
-          · have hid' : ¬ p = r.id := fun h => hid h.symm
-            by_cases hs : ((indexR rs).dirs r.id).isSome <;>
-              simp [indexR, applyReg, hf, upd, hpar, ihp, hmp, hid', hs]
-        · have hmp' : mentioned rs p = false := by simpa using hmp
-          have hnil := filterMap_childEntry_of_not_mentioned rs p hmp'
-          by_cases hid : r.id = p
-          · simp [indexR, applyReg, hf, upd, hpar, ihp, hmp', hid, hnil]
-          · have hid' : ¬ p = r.id := fun h => hid h.symm
-            by_cases hs : ((indexR rs).dirs r.id).isSome <;>
-              simp [indexR, applyReg, hf, upd, hpar, ihp, hmp', hid', hs, hnil]
-    · have hpar' : ¬ p = r.parent := fun h => hpar h.symm
-      have hce : childEntry p r = none := by simp [childEntry, hpar]
-      simp only [List.filterMap_cons, hce]
-      cases hf : r.file with
-      | some eb =>
-        have hm : mentioned (r :: rs) p = mentioned rs p := by simp [mentioned, hpar, hf]
-        simp [indexR, applyReg, hf, upd, hpar', hm, ihp]
-      | none =>
-        by_cases hid : r.id = p
-        · have hm : mentioned (r :: rs) p = true := by simp [mentioned, hf, hid]
-          by_cases hmp : mentioned rs p = true
-          · simp [indexR, applyReg, hf, upd, hpar', hm, ihp, hmp, hid]
-          · have hmp' : mentioned rs p = false := by simpa using hmp
-            simp [indexR, applyReg, hf, upd, hpar', hm, ihp, hmp', hid,
-              filterMap_childEntry_of_not_mentioned rs p hmp']
-        · have hid' : ¬ p = r.id := fun h => hid h.symm
-          have hm : mentioned (r :: rs) p = mentioned rs p := by simp [mentioned, hpar, hf, hid]
-          by_cases hs : ((indexR rs).dirs r.id).isSome <;>
-            simp [indexR, applyReg, hf, upd, hpar', hm, ihp, hid', hs]
 
 theorem filterMap_congr' {α β} (f g : α → Option β) (l : List α) (h : ∀ x ∈ l, f x = g x) :
     l.filterMap f = l.filterMap g := by
